@@ -4,7 +4,7 @@ from checks import c01
 
 FUNCTIONS = c01.FUNCTIONS
 BOUNDS = {
-    'quick': 'k in {2,3}; n = 1 (4 tags, unary rules), n = 2 (2 tags per word; G5, G5r, G4 with duplicate results), n = 3 with one admitted tag per word (G1, GU: 2 derivations); n = 3 with two tags on the middle word (G9r, head-final, 3 derivations, k = 2; the cells no derivation uses and the tag scores of the unambiguous words held at stated constants); all scores solver variables; per path: count = min(k, #derivations), trees pairwise different, scores non-increasing, every derivation not returned scores <= the last returned one, first result optimal',
+    'quick': 'k in {2,3} (and k above the number of derivations: G8 n = 2 k = 2, G6 n = 1 k = 8); n = 1 (4 tags, unary rules), n = 2 (2 tags per word; G5, G5r, G4 with duplicate results), n = 3 with one admitted tag per word (G1, GU: 2 derivations); n = 3 with two tags on the middle word (G9r, head-final, 3 derivations, k = 2; the cells no derivation uses and the tag scores of the unambiguous words held at stated constants); all scores solver variables; per path: count = min(k, #derivations), trees pairwise different, scores non-increasing, every derivation not returned scores <= the last returned one, first result optimal',
     'thorough': 'adds n = 3 with G3c/unary, k = 3 on GU n = 4 (5 derivations)',
 }
 OUTSIDE = c01.OUTSIDE + '; k > 3'
@@ -18,6 +18,9 @@ def obligations(tier):
         obs.append(S.SOb('C10.nbest[G5,n=2,tags=2,k=%d]' % k, S.G5(True), 2, pruning=2, penalty='0', nbest=k))
         obs.append(S.SOb('C10.nbest[G6,n=1,tags=4,k=%d]' % k, S.G6(), 1, ([(0, 3)] if q else ()), pruning=4, penalty='sym', nbest=k))
     obs.append(S.SOb('C10.nbest[G5r,n=2,tags=2,k=2]', S.G5(False), 2, pruning=2, penalty='0', nbest=2))
+    # fewer derivations than k: all of them are due (G8: one derivation for two words; G6: six for one word)
+    obs.append(S.SOb('C10.nbest[G8,n=2,tags=2,k=2 > 1 derivation]', S.G8(), 2, pruning=2, penalty='sym', nbest=2))
+    obs.append(S.SOb('C10.nbest[G6,n=1,tags=4,k=8 > 6 derivations]', S.G6(), 1, ([(0, 3)] if q else ()), pruning=4, penalty='sym', nbest=8))
     obs.append(S.SOb('C10.nbest[G4,n=2,tags=2,k=%d]' % (2 if q else 3), S.G4(), 2, ([(1, 0)] if q else ()), pruning=2, penalty='sym', nbest=(2 if q else 3)))
     obs.append(S.SOb('C10.nbest[G1,n=3,tags=1,k=2]', S.G1(True), 3, S.one_tag(3, 3), pruning=1, penalty='0', nbest=2))
     obs.append(S.SOb('C10.nbest[G2,n=3,tags=1,k=3]', S.G1(False), 3, S.one_tag(3, 3), pruning=1, penalty='0', nbest=3))
